@@ -1084,4 +1084,1553 @@ theorem cache_setDiscard_ok {g : G} (hf : ForestInv g) (hc : CacheInv g) (hd : D
     ((hf.mem_iff _ _ _).1 hm).1 (fun y => cache_mem_walk_iff hf hkv) (cache_nodup_walk hf v)
   exact ⟨g', h1, h2, cache_forest_detach hf hm h2.n h2.kind h4 h3⟩
 
+/-- re-pointing `v` to `p`: the IR of every node afterwards -/
+theorem cache_reparent_irOf {g g' : G} (hp : CacheParInv g) {v p : Nat}
+    (hv : v < g.n) (hpn : p < g.n) (hkp : parentKind (g.kind v) = some (g.kind p))
+    (hn : g'.n = g.n) (hk : g'.kind = g.kind)
+    (hparv : g'.par v = some p) (hpar : ∀ x, x ≠ v → g'.par x = g.par x) :
+    (∀ x, CacheDesc g v x → irOf g' x = irOf g p) ∧ (∀ x, ¬ CacheDesc g v x → irOf g' x = irOf g x) ∧
+      irOf g' p = irOf g p := by
+  have hp' := cache_parInv_attach hp hv hpn hkp hn hk hparv hpar
+  have hndp : ¬ CacheDesc g v p := by
+    intro h
+    have h1 := cache_rank_parentKind hkp
+    rcases cache_desc_rank hp h with h2 | h2
+    · rw [h2] at h1; omega
+    · omega
+  have hirp : irOf g' p = irOf g p := cache_irOf_frame' hp hp' hk hpar hndp
+  have hirv : irOf g' v = irOf g p := by rw [cache_irOf_par hp' hparv, hirp]
+  refine ⟨?_, fun x hx => cache_irOf_frame' hp hp' hk hpar hx, hirp⟩
+  intro x hdx
+  rw [cache_desc_irOf hp' (cache_desc_frame hp hpar hdx), hirv]
+
+theorem cache_detach_irOf {g g' : G} (hp : CacheParInv g) {v : Nat} (hkv : g.kind v ≠ .ir)
+    (hn : g'.n = g.n) (hk : g'.kind = g.kind)
+    (hparv : g'.par v = none) (hpar : ∀ x, x ≠ v → g'.par x = g.par x) :
+    (∀ x, CacheDesc g v x → irOf g' x = none) ∧ (∀ x, ¬ CacheDesc g v x → irOf g' x = irOf g x) := by
+  have hp' := cache_parInv_detach hp hn hk hparv hpar
+  exact ⟨fun x hdx => cache_desc_detached hp' hparv (by rw [hk]; exact hkv) (cache_desc_frame hp hpar hdx),
+    fun x hx => cache_irOf_frame' hp hp' hk hpar hx⟩
+
+/-- attach the detached `v` below `p`: `gx` is the state `cacheAdd` runs on, `g'` the result -/
+theorem cache_attach_ok {g1 gx g' : G} (hp : CacheParInv g1) (hc : CacheInv g1) {v p : Nat}
+    (hv : v < g1.n) (hpn : p < g1.n) (hkp : parentKind (g1.kind v) = some (g1.kind p))
+    (hpv : g1.par v = none)
+    (hW : ∀ y, y ∈ cache_walk g1.kids (g1.kind v) v ↔ CacheDesc g1 v y)
+    (hxk : gx.kids = g1.kids) (hxkind : gx.kind = g1.kind) (hxu : gx.uuid = g1.uuid)
+    (hxc : gx.cache = g1.cache)
+    (hn : g'.n = g1.n) (hk : g'.kind = g1.kind) (hu : g'.uuid = g1.uuid)
+    (hparv : g'.par v = some p) (hpar : ∀ x, x ≠ v → g'.par x = g1.par x)
+    (hcache : g'.cache = match irOf g1 p with
+      | some i => (cacheAdd gx i v).cache
+      | none => g1.cache)
+    (hd' : Distinct g') : CacheInv g' := by
+  obtain ⟨hr1, _, _⟩ := cache_reparent_irOf hp hv hpn hkp hn hk hparv hpar
+  apply cache_core_attach hp hc hd' hv hpn hkp hpv hn hk hu hparv hpar
+  · intro i y hi hy
+    rw [hcache]
+    simp only [hi]
+    refine (cache_cacheAdd_spec (gx := gx) hxk hxkind hxu i hW).2.1 ?_ y hy
+    intro a b ha hb hab
+    refine hd' a b i (by rw [hn]; exact cache_desc_lt hp ha hv) (by rw [hn]; exact cache_desc_lt hp hb hv)
+      (by rw [hr1 a ha]; exact hi) (by rw [hr1 b hb]; exact hi) (by rw [hu]; exact hab)
+  · intro i u hh
+    rw [hcache]
+    cases hi : irOf g1 p with
+    | none => rfl
+    | some i0 =>
+      simp only []
+      rw [(cache_cacheAdd_spec (gx := gx) hxk hxkind hxu i0 hW).2.2 i u, hxc]
+      intro hh'
+      exact hh ⟨by rw [hi, hh'.1], hh'.2⟩
+
+theorem cache_mem_setInsertNat {L : List Nat} {v c : Nat} : c ∈ setInsertNat L v ↔ c = v ∨ c ∈ L := by
+  unfold setInsertNat
+  split
+  · constructor
+    · exact .inr
+    · rintro (rfl | h)
+      · assumption
+      · exact h
+  · rw [List.mem_append, List.mem_singleton]; exact or_comm
+
+theorem cache_nodup_setInsertNat {L : List Nat} {v : Nat} (h : L.Nodup) : (setInsertNat L v).Nodup := by
+  unfold setInsertNat
+  split
+  · exact h
+  · rename_i hv
+    rw [List.nodup_append]
+    refine ⟨h, by simp, ?_⟩
+    intro a ha b hb hab
+    rw [List.mem_singleton] at hb
+    subst hb; subst hab; exact hv ha
+
+/-- `ForestInv` after linking the detached `v` into collection `s` of `p` -/
+theorem cache_forest_attach {g1 g' : G} (hf : ForestInv g1) {p v : Nat} {s : Slot}
+    (hv : v < g1.n) (hpn : p < g1.n) (hs : slotOf (g1.kind v) = some s)
+    (hkp : parentKind (g1.kind v) = some (g1.kind p)) (hpv : g1.par v = none)
+    (hn : g'.n = g1.n) (hk : g'.kind = g1.kind)
+    (hpar : g'.par = fun x => if x = v then some p else g1.par x)
+    (hkids : ∀ p' s', ¬ (p' = p ∧ s' = s) → g'.kids p' s' = g1.kids p' s')
+    (hmem : ∀ c, c ∈ g'.kids p s ↔ c = v ∨ c ∈ g1.kids p s) (hnd : (g'.kids p s).Nodup) :
+    ForestInv g' := by
+  have hp' : CacheParInv g' := cache_parInv_attach (v := v) (p := p) hf.cache_parInv hv hpn hkp hn hk
+    (by rw [hpar]; simp) (by intro x hx; rw [hpar]; simp [hx])
+  refine ⟨?_, ?_, hp'.kind_ok, hp'.alloc⟩
+  · intro c p' s'
+    rw [hpar, hk]
+    by_cases hps : p' = p ∧ s' = s
+    · obtain ⟨rfl, rfl⟩ := hps
+      rw [hmem, hf.mem_iff]
+      by_cases hcv : c = v
+      · subst hcv; simp [hs]
+      · simp [hcv]
+    · rw [hkids p' s' hps, hf.mem_iff]
+      by_cases hcv : c = v
+      · subst hcv
+        simp only [if_true, hpv, hs]
+        constructor
+        · intro h; cases h.1
+        · intro h
+          exact absurd ⟨(Option.some.inj h.1).symm, (Option.some.inj h.2).symm⟩ hps
+      · simp [hcv]
+  · intro p' s'
+    by_cases hps : p' = p ∧ s' = s
+    · obtain ⟨rfl, rfl⟩ := hps; exact hnd
+    · rw [hkids p' s' hps]; exact hf.nodup p' s'
+
+/-- shape of the result of attaching `v` below `p` -/
+structure CacheAttached (g g' : G) (v p : Nat) : Prop where
+  n : g'.n = g.n
+  kind : g'.kind = g.kind
+  uuid : g'.uuid = g.uuid
+  parv : g'.par v = some p
+  par : ∀ x, x ≠ v → g'.par x = g.par x
+
+theorem CacheDetached.refl' {g : G} {v : Nat} (hc : CacheInv g) (hd : Distinct g) (hpv : g.par v = none) :
+    CacheDetached g g v := ⟨rfl, rfl, rfl, hpv, fun _ _ => rfl, hc, hd⟩
+
+/-- the tail of `setAdd`/`modHookAdd` -/
+def cache_attachState (g3 : G) (p : Nat) (s : Slot) (v : Nat) : G :=
+  kidsInsert (match irOf g3 p with
+    | some i => cacheAdd g3 i v
+    | none => g3) p s v
+
+/-- second half of `setAdd` from a state where `v` is detached -/
+theorem cache_setAdd_attach {g1 : G} (hf : ForestInv g1) (hc : CacheInv g1)
+    {p v : Nat} {s : Slot} (hv : v < g1.n) (hpn : p < g1.n) (hs : slotOf (g1.kind v) = some s)
+    (hkp : parentKind (g1.kind v) = some (g1.kind p)) (hpv : g1.par v = none) (g3 : G)
+    (h3 : CacheSame (setPar g1 v (some p)) g3) :
+    CacheAttached g1 (cache_attachState g3 p s v) v p ∧ ForestInv (cache_attachState g3 p s v) ∧
+      (Distinct (cache_attachState g3 p s v) → CacheInv (cache_attachState g3 p s v)) := by
+  have hp := hf.cache_parInv
+  have hkv : g1.kind v ≠ .ir := by intro e; rw [e] at hs; cases hs
+  have h3par : g3.par = fun x => if x = v then some p else g1.par x := h3.par
+  have h3pv : g3.par v = some p := by rw [h3par]; simp
+  have h3px : ∀ x, x ≠ v → g3.par x = g1.par x := by intro x hx; rw [h3par]; simp [hx]
+  have hirp : irOf g3 p = irOf g1 p := (cache_reparent_irOf hp hv hpn hkp h3.n h3.kind h3pv h3px).2.2
+  have hW : ∀ y, y ∈ cache_walk g1.kids (g1.kind v) v ↔ CacheDesc g1 v y :=
+    fun y => cache_mem_walk_iff hf hkv
+  have hvnot : v ∉ g1.kids p s := by
+    intro h; have := ((hf.mem_iff _ _ _).1 h).1; rw [hpv] at this; cases this
+  unfold cache_attachState
+  rw [hirp]
+  have key : ∀ g4 : G, CacheOnly g3 g4 →
+      (g4.cache = match irOf g1 p with
+        | some i => (cacheAdd g3 i v).cache
+        | none => g1.cache) →
+      CacheAttached g1 (kidsInsert g4 p s v) v p ∧ ForestInv (kidsInsert g4 p s v) ∧
+        (Distinct (kidsInsert g4 p s v) → CacheInv (kidsInsert g4 p s v)) := by
+    intro g4 h4 hcache
+    have e_n : (kidsInsert g4 p s v).n = g1.n := h4.n.trans h3.n
+    have e_k : (kidsInsert g4 p s v).kind = g1.kind := h4.kind.trans h3.kind
+    have e_u : (kidsInsert g4 p s v).uuid = g1.uuid := h4.uuid.trans h3.uuid
+    have e_p : (kidsInsert g4 p s v).par = fun x => if x = v then some p else g1.par x :=
+      h4.par.trans h3par
+    have e_pv : (kidsInsert g4 p s v).par v = some p := by rw [e_p]; simp
+    have e_px : ∀ x, x ≠ v → (kidsInsert g4 p s v).par x = g1.par x := by
+      intro x hx; rw [e_p]; simp [hx]
+    have e_kids : ∀ p' s', (kidsInsert g4 p s v).kids p' s' =
+        if p' = p ∧ s' = s then setInsertNat (g1.kids p s) v else g1.kids p' s' := by
+      intro p' s'
+      show (if p' = p ∧ s' = s then setInsertNat (g4.kids p s) v else g4.kids p' s') = _
+      rw [h4.kids, h3.kids]; rfl
+    refine ⟨⟨e_n, e_k, e_u, e_pv, e_px⟩, ?_, ?_⟩
+    · apply cache_forest_attach hf hv hpn hs hkp hpv e_n e_k e_p
+      · intro p' s' hps; rw [e_kids, if_neg hps]
+      · intro c; rw [e_kids, if_pos ⟨rfl, rfl⟩]; exact cache_mem_setInsertNat
+      · rw [e_kids, if_pos ⟨rfl, rfl⟩]; exact cache_nodup_setInsertNat (hf.nodup _ _)
+    · intro hd'
+      exact cache_attach_ok (gx := g3) hp hc hv hpn hkp hpv hW h3.kids h3.kind h3.uuid h3.cache
+        e_n e_k e_u e_pv e_px hcache hd'
+  cases hi : irOf g1 p with
+  | none =>
+    apply key g3 (CacheOnly.rfl' g3)
+    rw [h3.cache, hi]; rfl
+  | some i =>
+    apply key (cacheAdd g3 i v) (cache_cacheAdd_spec (gf := g1) h3.kids h3.kind h3.uuid i hW).1
+    rw [hi]
+
+theorem CacheAttached.of_detached {g g1 g' : G} {v p : Nat} (h1 : CacheDetached g g1 v)
+    (h2 : CacheAttached g1 g' v p) : CacheAttached g g' v p :=
+  ⟨h2.n.trans h1.n, h2.kind.trans h1.kind, h2.uuid.trans h1.uuid, h2.parv,
+   fun x hx => (h2.par x hx).trans (h1.par x hx)⟩
+
+theorem cache_setAdd_ok {g : G} (hf : ForestInv g) (hc : CacheInv g) (hd : Distinct g)
+    {p v : Nat} {s : Slot} (hv : v < g.n) (hpn : p < g.n) (hs : slotOf (g.kind v) = some s)
+    (hkp : parentKind (g.kind v) = some (g.kind p)) :
+    ∃ g', setAdd g p s v = .ok g' ∧ CacheAttached g g' v p ∧ ForestInv g' ∧
+      (Distinct g' → CacheInv g') := by
+  have hkv : g.kind v ≠ .ir := by intro e; rw [e] at hs; cases hs
+  have tail : ∀ g1, CacheDetached g g1 v → ForestInv g1 →
+      ∃ g', (Except.ok (cache_attachState
+        (if s = .secs ∨ s = .syms ∨ s = .proxies then symIndexAdd (setPar g1 v (some p)) p v
+          else setPar g1 v (some p)) p s v) : Except Exc G) = Except.ok g' ∧ CacheAttached g g' v p ∧ ForestInv g' ∧
+      (Distinct g' → CacheInv g') := by
+    intro g1 hdet hf1
+    have hA := cache_setAdd_attach hf1 hdet.cacheInv (p := p) (v := v) (s := s)
+      (by rw [hdet.n]; exact hv) (by rw [hdet.n]; exact hpn) (by rw [hdet.kind]; exact hs)
+      (by rw [hdet.kind]; exact hkp) hdet.parv
+      (if s = .secs ∨ s = .syms ∨ s = .proxies then symIndexAdd (setPar g1 v (some p)) p v
+        else setPar g1 v (some p))
+      (by split
+          · exact cache_symIndexAdd_same _ _ _
+          · exact CacheSame.rfl' _)
+    exact ⟨_, rfl, CacheAttached.of_detached hdet hA.1, hA.2.1, hA.2.2⟩
+  unfold setAdd
+  cases hq : g.par v with
+  | none => exact tail g (CacheDetached.refl' hc hd hq) hf
+  | some q =>
+    obtain ⟨g1, h1, hdet, hf1⟩ := cache_setDiscard_ok hf hc hd hv hkv ((hf.mem_iff _ _ _).2 ⟨hq, hs⟩)
+    simp only [h1]
+    exact tail g1 hdet hf1
+
+/-! ## Part F: folds -/
+
+/-- UUIDs are distinct in every state a step of the fold starts from -/
+def cache_DistinctFold (F : G → Nat → Except Exc G) : G → List Nat → Prop
+  | _, [] => True
+  | g, v :: vs => Distinct g ∧ match F g v with
+    | .ok g1 => cache_DistinctFold F g1 vs
+    | .error _ => True
+
+/-- generic fold lemma: an invariant indexed by the remaining list, the table exact whenever the
+UUIDs are distinct -/
+theorem cache_foldE_good {F : G → Nat → Except Exc G} (I : List Nat → G → Prop)
+    (hstep : ∀ g v L, I (v :: L) g → Distinct g → CacheInv g →
+      ∃ g1, F g v = .ok g1 ∧ I L g1 ∧ (Distinct g1 → CacheInv g1)) :
+    ∀ (L : List Nat) (g : G), I L g → (Distinct g → CacheInv g) → cache_DistinctFold F g L →
+      ∃ g', foldE F L g = .ok g' ∧ I [] g' ∧ (Distinct g' → CacheInv g')
+  | [], g, hI, hc, _ => ⟨g, rfl, hI, hc⟩
+  | v :: L, g, hI, hc, hdf => by
+    obtain ⟨hd, hdf'⟩ := hdf
+    obtain ⟨g1, h1, hI1, hc1⟩ := hstep g v L hI hd (hc hd)
+    rw [h1] at hdf'
+    obtain ⟨g', h', hI', hc'⟩ := cache_foldE_good I hstep L g1 hI1 hc1 hdf'
+    exact ⟨g', by simp only [foldE, h1, h'], hI', hc'⟩
+
+/-- a fold all of whose steps keep the UUIDs distinct (detaching folds) -/
+theorem cache_distinctFold_of_pres {F : G → Nat → Except Exc G} (P : G → Prop)
+    (hstep : ∀ g v g1, P g → Distinct g → F g v = .ok g1 → P g1 ∧ Distinct g1) :
+    ∀ (L : List Nat) (g : G), P g → Distinct g → cache_DistinctFold F g L
+  | [], _, _, _ => trivial
+  | v :: L, g, hP, hd => by
+    refine ⟨hd, ?_⟩
+    cases h1 : F g v with
+    | error e => trivial
+    | ok g1 =>
+      obtain ⟨hP1, hd1⟩ := hstep g v g1 hP hd h1
+      exact cache_distinctFold_of_pres P hstep L g1 hP1 hd1
+
+/-- side conditions of an attaching fold towards `p` -/
+structure CacheAttSide (g0 g : G) (p : Nat) (L : List Nat) : Prop where
+  n : g.n = g0.n
+  kind : g.kind = g0.kind
+  uuid : g.uuid = g0.uuid
+  parInv : CacheParInv g
+  pn : p < g0.n
+  ok : ∀ v, v ∈ L → v < g0.n ∧ parentKind (g0.kind v) = some (g0.kind p)
+
+theorem CacheAttSide.step {g0 g g1 : G} {p v : Nat} {L : List Nat} (h : CacheAttSide g0 g p (v :: L))
+    (h1 : CacheAttached g g1 v p) : CacheAttSide g0 g1 p L := by
+  have hv := h.ok v List.mem_cons_self
+  refine ⟨h1.n.trans h.n, h1.kind.trans h.kind, h1.uuid.trans h.uuid, ?_, h.pn,
+    fun x hx => h.ok x (List.mem_cons_of_mem _ hx)⟩
+  exact cache_parInv_attach h.parInv (by rw [h.n]; exact hv.1) (by rw [h.n]; exact h.pn)
+    (by rw [h.kind]; exact hv.2) h1.n h1.kind h1.parv h1.par
+
+/-- forward: what is in `p`'s IR stays there while the fold attaches further nodes below `p` -/
+theorem cache_attFold_forward {F : G → Nat → Except Exc G} {g0 : G} {p : Nat}
+    (hshape : ∀ g v g1, F g v = .ok g1 → CacheAttached g g1 v p) :
+    ∀ (L : List Nat) (g g' : G), CacheAttSide g0 g p L → foldE F L g = .ok g' →
+      g'.n = g.n ∧ g'.uuid = g.uuid ∧
+      irOf g' p = irOf g p ∧ ∀ x, irOf g x = irOf g p → irOf g' x = irOf g p
+  | [], g, g', _, h => by cases h; exact ⟨rfl, rfl, rfl, fun _ hx => hx⟩
+  | v :: L, g, g', hs, h => by
+    simp only [foldE] at h
+    cases h1 : F g v with
+    | error e => rw [h1] at h; cases h
+    | ok g1 =>
+      rw [h1] at h
+      have hA := hshape g v g1 h1
+      have hv := hs.ok v List.mem_cons_self
+      obtain ⟨r1, r2, r3⟩ := cache_reparent_irOf hs.parInv (by rw [hs.n]; exact hv.1)
+        (by rw [hs.n]; exact hs.pn) (by rw [hs.kind]; exact hv.2) hA.n hA.kind hA.parv hA.par
+      obtain ⟨f0, f0', f1, f2⟩ := cache_attFold_forward hshape L g1 g' (hs.step hA) h
+      refine ⟨f0.trans hA.n, f0'.trans hA.uuid, f1.trans r3, ?_⟩
+      intro x hx
+      have : irOf g1 x = irOf g1 p := by
+        rw [r3]
+        by_cases hdx : CacheDesc g v x
+        · exact r1 x hdx
+        · rw [r2 x hdx]; exact hx
+      rw [f2 x this, r3]
+
+/-- if the UUIDs are distinct before and after an attaching fold, they are distinct in between -/
+theorem cache_distinctFold_of_ends {F : G → Nat → Except Exc G} {g0 : G} {p : Nat}
+    (hshape : ∀ g v g1, F g v = .ok g1 → CacheAttached g g1 v p) :
+    ∀ (L : List Nat) (g g' : G), CacheAttSide g0 g p L → foldE F L g = .ok g' →
+      Distinct g → Distinct g' → cache_DistinctFold F g L
+  | [], _, _, _, _, _, _ => trivial
+  | v :: L, g, g', hs, h, hd, hd' => by
+    refine ⟨hd, ?_⟩
+    simp only [foldE] at h
+    cases h1 : F g v with
+    | error e => trivial
+    | ok g1 =>
+      rw [h1] at h
+      simp only []
+      have hA := hshape g v g1 h1
+      have hv := hs.ok v List.mem_cons_self
+      obtain ⟨r1, r2, r3⟩ := cache_reparent_irOf hs.parInv (by rw [hs.n]; exact hv.1)
+        (by rw [hs.n]; exact hs.pn) (by rw [hs.kind]; exact hv.2) hA.n hA.kind hA.parv hA.par
+      have hs1 := hs.step hA
+      obtain ⟨f0, f0', f1, f2⟩ := cache_attFold_forward hshape L g1 g' hs1 h
+      have hd1 : Distinct g1 := by
+        intro a b i ha hb hia hib hab
+        by_cases hpi : irOf g p = some i
+        · -- both end up in `p`'s IR in the final state
+          have ha' : irOf g' a = some i := by rw [f2 a (by rw [r3, hia, hpi]), r3, hpi]
+          have hb' : irOf g' b = some i := by rw [f2 b (by rw [r3, hib, hpi]), r3, hpi]
+          exact hd' a b i (by rw [f0]; exact ha) (by rw [f0]; exact hb) ha' hb' (by rw [f0']; exact hab)
+        · -- both were there before the step
+          have key : ∀ x, irOf g1 x = some i → irOf g x = some i := by
+            intro x hx
+            by_cases hdx : CacheDesc g v x
+            · rw [r1 x hdx] at hx; exact absurd hx hpi
+            · rw [r2 x hdx] at hx; exact hx
+          exact hd a b i (by rw [← hA.n]; exact ha) (by rw [← hA.n]; exact hb) (key a hia) (key b hib)
+            (by rw [← hA.uuid]; exact hab)
+      exact cache_distinctFold_of_ends hshape L g1 g' hs1 h hd1 hd'
+
+/-! ### shapes that hold without any invariant -/
+
+theorem cache_cacheRemove_only {g g' : G} {i v : Nat} (h : cacheRemove g i v = .ok g') : CacheOnly g g' := by
+  rw [cache_cacheRemove_eq] at h; exact cache_delAll_only i _ _ _ h
+
+theorem cache_cacheAdd_only (g : G) (i v : Nat) : CacheOnly g (cacheAdd g i v) := by
+  rw [cache_cacheAdd_eq]; exact cache_setAll_only i _ g
+
+/-- what a `discard` may change in the fields the invariants read -/
+structure CacheLeft (g g' : G) (v : Nat) : Prop where
+  n : g'.n = g.n
+  kind : g'.kind = g.kind
+  uuid : g'.uuid = g.uuid
+  par : ∀ x, x ≠ v → g'.par x = g.par x
+
+theorem CacheLeft.rfl' (g : G) (v : Nat) : CacheLeft g g v := ⟨rfl, rfl, rfl, fun _ _ => rfl⟩
+
+theorem cache_setDiscard_shape {g g' : G} {q v : Nat} {s : Slot} (h : setDiscard g q s v = .ok g') :
+    CacheLeft g g' v := by
+  unfold setDiscard at h
+  split at h
+  · have key : ∀ g2 : G, CacheSame (setPar g v none) g2 →
+        (match irOf g2 q with
+          | some i => match cacheRemove g2 i v with
+            | .ok g3 => Except.ok (kidsErase g3 q s v)
+            | .error e => .error e
+          | none => .ok (kidsErase g2 q s v)) = .ok g' → CacheLeft g g' v := by
+      intro g2 h2 h
+      have h2par : ∀ x, x ≠ v → g2.par x = g.par x := by
+        intro x hx; rw [h2.par]; show (if x = v then none else g.par x) = _; rw [if_neg hx]
+      split at h
+      · split at h
+        · rename_i g3 h3
+          have := cache_cacheRemove_only h3
+          cases h
+          exact ⟨this.n.trans h2.n, this.kind.trans h2.kind, this.uuid.trans h2.uuid,
+            fun x hx => (congrFun this.par x).trans (h2par x hx)⟩
+        · cases h
+      · cases h
+        exact ⟨h2.n, h2.kind, h2.uuid, h2par⟩
+    refine key _ ?_ h
+    split
+    · exact cache_symIndexDiscard_same _ _ _
+    · exact CacheSame.rfl' _
+  · cases h; exact CacheLeft.rfl' g v
+
+theorem cache_attachState_only (g3 : G) (p : Nat) (s : Slot) (v : Nat) :
+    ∃ g4, CacheOnly g3 g4 ∧ cache_attachState g3 p s v = kidsInsert g4 p s v := by
+  unfold cache_attachState
+  split
+  · exact ⟨_, cache_cacheAdd_only _ _ _, rfl⟩
+  · exact ⟨_, CacheOnly.rfl' _, rfl⟩
+
+theorem cache_setAdd_shape {g g' : G} {p v : Nat} {s : Slot} (h : setAdd g p s v = .ok g') :
+    CacheAttached g g' v p := by
+  have tail : ∀ g1, CacheLeft g g1 v →
+      (Except.ok (cache_attachState
+        (if s = .secs ∨ s = .syms ∨ s = .proxies then symIndexAdd (setPar g1 v (some p)) p v
+          else setPar g1 v (some p)) p s v) : Except Exc G) = Except.ok g' → CacheAttached g g' v p := by
+    intro g1 h1 h
+    cases h
+    have h3 : CacheSame (setPar g1 v (some p))
+        (if s = .secs ∨ s = .syms ∨ s = .proxies then symIndexAdd (setPar g1 v (some p)) p v
+          else setPar g1 v (some p)) := by
+      split
+      · exact cache_symIndexAdd_same _ _ _
+      · exact CacheSame.rfl' _
+    generalize (if s = .secs ∨ s = .syms ∨ s = .proxies then symIndexAdd (setPar g1 v (some p)) p v
+          else setPar g1 v (some p)) = g3 at h3
+    obtain ⟨g4, h4, e4⟩ := cache_attachState_only g3 p s v
+    rw [e4]
+    have e_p : (kidsInsert g4 p s v).par = fun x => if x = v then some p else g1.par x :=
+      h4.par.trans h3.par
+    refine ⟨h4.n.trans (h3.n.trans h1.n), h4.kind.trans (h3.kind.trans h1.kind),
+      h4.uuid.trans (h3.uuid.trans h1.uuid), by rw [e_p]; simp, ?_⟩
+    intro x hx
+    rw [e_p]; simp only [hx, if_false]; exact h1.par x hx
+  unfold setAdd at h
+  cases hq : g.par v with
+  | none => rw [hq] at h; exact tail g (CacheLeft.rfl' g v) h
+  | some q =>
+    rw [hq] at h
+    simp only [] at h
+    cases h1 : setDiscard g q s v with
+    | error e => rw [h1] at h; cases h
+    | ok g1 => rw [h1] at h; exact tail g1 (cache_setDiscard_shape h1) h
+
+/-! ### `blkUpdate` -/
+
+def cache_blkTail (ir : Option Nat) (g2 : G) (v : Nat) : G :=
+  match ir with
+  | some i => cacheAdd g2 i v
+  | none => g2
+
+/-- one step of the loop of `ByteInterval._BlockSet.update` -/
+def cache_blkStep (ir : Option Nat) (p : Nat) (g : G) (v : Nat) : Except Exc G :=
+  match (match g.par v with
+         | some q => setDiscard g q .blocks v
+         | none => .ok g) with
+  | .error e => .error e
+  | .ok g1 => .ok (cache_blkTail ir (setPar g1 v (some p)) v)
+
+theorem cache_blkTail_only (ir : Option Nat) (g2 : G) (v : Nat) : CacheOnly g2 (cache_blkTail ir g2 v) := by
+  unfold cache_blkTail
+  split
+  · exact cache_cacheAdd_only _ _ _
+  · exact CacheOnly.rfl' _
+
+def cache_blkNew (g : G) (p : Nat) (vs : List Nat) : List Nat :=
+  (vs.eraseDups).filter (fun v => !(v ∈ g.kids p .blocks))
+
+theorem cache_blkUpdate_eq (g : G) (p : Nat) (vs : List Nat) :
+    blkUpdate g p vs =
+      match foldE (cache_blkStep (irOf g p) p) (cache_blkNew g p vs) g with
+      | .error e => .error e
+      | .ok g' => .ok ((cache_blkNew g p vs).foldl (fun g v => kidsInsert g p .blocks v) g') := rfl
+
+theorem cache_blkStep_shape {ir : Option Nat} {p : Nat} {g g' : G} {v : Nat}
+    (h : cache_blkStep ir p g v = .ok g') : CacheAttached g g' v p := by
+  have tail : ∀ g1, CacheLeft g g1 v →
+      (Except.ok (cache_blkTail ir (setPar g1 v (some p)) v) : Except Exc G) = Except.ok g' →
+      CacheAttached g g' v p := by
+    intro g1 h1 h
+    cases h
+    have h4 := cache_blkTail_only ir (setPar g1 v (some p)) v
+    refine ⟨h4.n.trans h1.n, h4.kind.trans h1.kind, h4.uuid.trans h1.uuid, ?_, ?_⟩
+    · rw [h4.par]; show (if v = v then some p else g1.par v) = _; simp
+    · intro x hx
+      rw [h4.par]; show (if x = v then some p else g1.par x) = _
+      rw [if_neg hx]; exact h1.par x hx
+  unfold cache_blkStep at h
+  cases hq : g.par v with
+  | none => rw [hq] at h; exact tail g (CacheLeft.rfl' g v) h
+  | some q =>
+    rw [hq] at h
+    simp only [] at h
+    cases h1 : setDiscard g q .blocks v with
+    | error e => rw [h1] at h; cases h
+    | ok g1 => rw [h1] at h; exact tail g1 (cache_setDiscard_shape h1) h
+
+structure CacheBlkCtx (g : G) (p : Nat) (new : List Nat) : Prop where
+  forest : ForestInv g
+  pn : p < g.n
+  nodup : new.Nodup
+  ok : ∀ v, v ∈ new → v < g.n ∧ slotOf (g.kind v) = some .blocks ∧
+    parentKind (g.kind v) = some (g.kind p) ∧ v ∉ g.kids p .blocks
+
+/-- state of the loop after the blocks `D` have been re-pointed to `p` (not yet inserted) -/
+structure CacheBlkInv (g : G) (p : Nat) (D : List Nat) (gk : G) : Prop where
+  n : gk.n = g.n
+  kind : gk.kind = g.kind
+  uuid : gk.uuid = g.uuid
+  par : ∀ x, gk.par x = if x ∈ D then some p else g.par x
+  kids_other : ∀ p' s', s' ≠ Slot.blocks → gk.kids p' s' = g.kids p' s'
+  kids_blk : ∀ p' c, c ∈ gk.kids p' .blocks ↔ c ∈ g.kids p' .blocks ∧ c ∉ D
+  kids_nodup : ∀ p', (gk.kids p' .blocks).Nodup
+  parInv : CacheParInv gk
+  irp : irOf gk p = irOf g p
+
+theorem cache_blkStep_ok {g : G} {p : Nat} {new D R : List Nat} {v : Nat} {gk : G}
+    (ctx : CacheBlkCtx g p new) (hnew : new = D ++ v :: R) (inv : CacheBlkInv g p D gk)
+    (hd : Distinct gk) (hc : CacheInv gk) :
+    ∃ g1, cache_blkStep (irOf g p) p gk v = .ok g1 ∧ CacheBlkInv g p (D ++ [v]) g1 ∧
+      (Distinct g1 → CacheInv g1) := by
+  have hf := ctx.forest
+  have hvnew : v ∈ new := by rw [hnew]; simp
+  obtain ⟨hv, hs, hkp, hvp⟩ := ctx.ok v hvnew
+  have hvD : v ∉ D := by
+    have := ctx.nodup
+    rw [hnew, List.nodup_append] at this
+    intro h; exact this.2.2 v h v List.mem_cons_self rfl
+  have hkcd := cache_slot_blocks hs
+  have hkv : g.kind v ≠ .ir := by intro e; rw [e] at hs; cases hs
+  have hpark : gk.par v = g.par v := by rw [inv.par, if_neg hvD]
+  have hvp_ne : v ≠ p := by
+    intro e; rw [e] at hkp
+    have := cache_rank_parentKind hkp; omega
+  -- the common tail
+  have tail : ∀ g1, CacheDetached gk g1 v →
+      (∀ p' s', s' ≠ Slot.blocks → g1.kids p' s' = g.kids p' s') →
+      (∀ p' c, c ∈ g1.kids p' .blocks ↔ c ∈ g.kids p' .blocks ∧ c ∉ D ++ [v]) →
+      (∀ p', (g1.kids p' .blocks).Nodup) →
+      CacheBlkInv g p (D ++ [v]) (cache_blkTail (irOf g p) (setPar g1 v (some p)) v) ∧
+      (Distinct (cache_blkTail (irOf g p) (setPar g1 v (some p)) v) →
+        CacheInv (cache_blkTail (irOf g p) (setPar g1 v (some p)) v)) := by
+    intro g1 hdet hk1 hk2 hk3
+    have hp1 : CacheParInv g1 := cache_parInv_detach inv.parInv hdet.n hdet.kind hdet.parv hdet.par
+    have hndp : ¬ CacheDesc gk v p := by
+      intro h
+      have := cache_desc_leaf inv.parInv (v := v) (by
+        rw [inv.kind]; rcases hkcd with h | h <;> rw [h]
+        · exact cache_no_child_code
+        · exact cache_no_child_data) h
+      exact hvp_ne this.symm
+    have hirp1 : irOf g1 p = irOf g p := by
+      rw [(cache_detach_irOf inv.parInv (by rw [inv.kind]; exact hkv) hdet.n hdet.kind hdet.parv
+        hdet.par).2 p hndp, inv.irp]
+    have h4 := cache_blkTail_only (irOf g p) (setPar g1 v (some p)) v
+    have hcache : (cache_blkTail (irOf g p) (setPar g1 v (some p)) v).cache =
+        match irOf g1 p with
+        | some i => (cacheAdd (setPar g1 v (some p)) i v).cache
+        | none => g1.cache := by
+      rw [hirp1]; unfold cache_blkTail
+      cases irOf g p <;> rfl
+    generalize cache_blkTail (irOf g p) (setPar g1 v (some p)) v = g' at h4 hcache ⊢
+    have e_n : g'.n = g1.n := h4.n
+    have e_k : g'.kind = g1.kind := h4.kind
+    have e_u : g'.uuid = g1.uuid := h4.uuid
+    have e_p : g'.par = fun x => if x = v then some p else g1.par x := h4.par
+    have e_pv : g'.par v = some p := by rw [e_p]; simp
+    have e_px : ∀ x, x ≠ v → g'.par x = g1.par x := by intro x hx; rw [e_p]; simp [hx]
+    have hv1 : v < g1.n := by rw [hdet.n, inv.n]; exact hv
+    have hpn1 : p < g1.n := by rw [hdet.n, inv.n]; exact ctx.pn
+    have hkp1 : parentKind (g1.kind v) = some (g1.kind p) := by rw [hdet.kind, inv.kind]; exact hkp
+    have hr := cache_reparent_irOf hp1 hv1 hpn1 hkp1 e_n e_k e_pv e_px
+    refine ⟨⟨e_n.trans (hdet.n.trans inv.n), e_k.trans (hdet.kind.trans inv.kind),
+      e_u.trans (hdet.uuid.trans inv.uuid), ?_, ?_, ?_, ?_, ?_, ?_⟩, ?_⟩
+    · intro x
+      by_cases hxv : x = v
+      · subst hxv; rw [e_pv]; simp
+      · rw [e_px x hxv, hdet.par x hxv, inv.par]
+        simp [hxv]
+    · intro p' s' hs'; rw [h4.kids]; exact hk1 p' s' hs'
+    · intro p' c; rw [h4.kids]; exact hk2 p' c
+    · intro p'; rw [h4.kids]; exact hk3 p'
+    · exact cache_parInv_attach hp1 hv1 hpn1 hkp1 e_n e_k e_pv e_px
+    · rw [hr.2.2, hirp1]
+    · intro hd'
+      have hkcd1 : g1.kind v = .code ∨ g1.kind v = .data := by rw [hdet.kind, inv.kind]; exact hkcd
+      refine cache_attach_ok (gx := setPar g1 v (some p)) hp1 hdet.cacheInv hv1 hpn1 hkp1 hdet.parv
+        (cache_walk_leaf hp1 hkcd1 g1.kids).1 rfl rfl rfl rfl e_n e_k e_u e_pv e_px hcache hd'
+  unfold cache_blkStep
+  cases hq : gk.par v with
+  | none =>
+    simp only []
+    refine ⟨_, rfl, tail gk (CacheDetached.refl' hc hd hq) inv.kids_other ?_ inv.kids_nodup⟩
+    intro p' c
+    rw [inv.kids_blk, List.mem_append, List.mem_singleton]
+    constructor
+    · rintro ⟨h1, h2⟩
+      refine ⟨h1, ?_⟩
+      rintro (h | h)
+      · exact h2 h
+      · subst h
+        have := ((hf.mem_iff _ _ _).1 h1).1
+        rw [← hpark, hq] at this; cases this
+    · rintro ⟨h1, h2⟩
+      exact ⟨h1, fun h => h2 (.inl h)⟩
+  | some q =>
+    simp only []
+    have hgq : g.par v = some q := by rw [← hpark]; exact hq
+    have hmq : v ∈ gk.kids q .blocks := (inv.kids_blk q v).2 ⟨(hf.mem_iff _ _ _).2 ⟨hgq, hs⟩, hvD⟩
+    have hkcdk : gk.kind v = .code ∨ gk.kind v = .data := by rw [inv.kind]; exact hkcd
+    obtain ⟨g1, hsd, hdet, hkids1, _⟩ := cache_setDiscard_core inv.parInv hc hd (by rw [inv.n]; exact hv)
+      (by rw [inv.kind]; exact hkv) hmq hq (cache_walk_leaf inv.parInv hkcdk gk.kids).1
+      (cache_walk_leaf inv.parInv hkcdk gk.kids).2
+    rw [hsd]
+    simp only []
+    refine ⟨_, rfl, tail g1 hdet ?_ ?_ ?_⟩
+    · intro p' s' hs'
+      rw [hkids1]; simp only [hs', and_false, if_false]; exact inv.kids_other p' s' hs'
+    · intro p' c
+      rw [hkids1, List.mem_append, List.mem_singleton]
+      by_cases hpq : p' = q
+      · subst hpq
+        simp only [and_self, if_true]
+        rw [(inv.kids_nodup p').mem_erase_iff, inv.kids_blk]
+        constructor
+        · rintro ⟨h1, h2, h3⟩
+          exact ⟨h2, fun h => h.elim h3 h1⟩
+        · rintro ⟨h1, h2⟩
+          exact ⟨fun h => h2 (.inr h), h1, fun h => h2 (.inl h)⟩
+      · simp only [hpq, false_and, if_false]
+        rw [inv.kids_blk]
+        constructor
+        · rintro ⟨h1, h2⟩
+          refine ⟨h1, ?_⟩
+          rintro (h | h)
+          · exact h2 h
+          · subst h
+            have := ((hf.mem_iff _ _ _).1 h1).1
+            rw [hgq] at this; exact hpq (Option.some.inj this).symm
+        · rintro ⟨h1, h2⟩
+          exact ⟨h1, fun h => h2 (.inl h)⟩
+    · intro p'
+      rw [hkids1]
+      by_cases hpq : p' = q
+      · subst hpq; simp only [and_self, if_true]; exact (inv.kids_nodup p').erase v
+      · simp only [hpq, false_and, if_false]; exact inv.kids_nodup p'
+
+theorem cache_nodup_eraseDups : ∀ (n : Nat) (l : List Nat), l.length ≤ n → l.eraseDups.Nodup := by
+  intro n
+  induction n with
+  | zero =>
+    intro l hl
+    have : l = [] := List.length_eq_zero_iff.1 (Nat.le_zero.1 hl)
+    subst this; simp
+  | succ n ih =>
+    intro l hl
+    cases l with
+    | nil => simp
+    | cons a as =>
+      rw [List.eraseDups_cons, List.nodup_cons]
+      constructor
+      · rw [List.mem_eraseDups, List.mem_filter]
+        simp
+      · apply ih
+        have := List.length_filter_le (fun b => !b == a) as
+        simp only [List.length_cons] at hl
+        omega
+
+theorem cache_blkNew_nodup (g : G) (p : Nat) (vs : List Nat) : (cache_blkNew g p vs).Nodup :=
+  (cache_nodup_eraseDups _ vs (Nat.le_refl _)).sublist List.filter_sublist
+
+theorem cache_mem_blkNew {g : G} {p : Nat} {vs : List Nat} {v : Nat} :
+    v ∈ cache_blkNew g p vs ↔ v ∈ vs ∧ v ∉ g.kids p .blocks := by
+  unfold cache_blkNew
+  rw [List.mem_filter, List.mem_eraseDups]
+  simp
+
+theorem cache_mem_foldl_setInsertNat : ∀ (L init : List Nat) (c : Nat),
+    c ∈ L.foldl setInsertNat init ↔ c ∈ init ∨ c ∈ L
+  | [], init, c => by simp
+  | x :: L, init, c => by
+    rw [List.foldl_cons, cache_mem_foldl_setInsertNat L, cache_mem_setInsertNat, List.mem_cons]
+    constructor
+    · rintro ((h | h) | h)
+      · exact .inr (.inl h)
+      · exact .inl h
+      · exact .inr (.inr h)
+    · rintro (h | h | h)
+      · exact .inl (.inr h)
+      · exact .inl (.inl h)
+      · exact .inr h
+
+theorem cache_nodup_foldl_setInsertNat : ∀ (L init : List Nat), init.Nodup →
+    (L.foldl setInsertNat init).Nodup
+  | [], _, h => h
+  | _ :: L, _, h => cache_nodup_foldl_setInsertNat L _ (cache_nodup_setInsertNat h)
+
+theorem cache_foldl_kidsInsert (p : Nat) (s : Slot) : ∀ (L : List Nat) (g : G),
+    let g' := L.foldl (fun g v => kidsInsert g p s v) g
+    g'.n = g.n ∧ g'.kind = g.kind ∧ g'.uuid = g.uuid ∧ g'.par = g.par ∧ g'.cache = g.cache ∧
+    ∀ p' s', g'.kids p' s' = if p' = p ∧ s' = s then L.foldl setInsertNat (g.kids p s) else g.kids p' s'
+  | [], g => ⟨rfl, rfl, rfl, rfl, rfl, fun p' s' => by simp; intro h1 h2; rw [h1, h2]⟩
+  | x :: L, g => by
+    intro g'
+    obtain ⟨h1, h2, h3, h4, h5, h6⟩ := cache_foldl_kidsInsert p s L (kidsInsert g p s x)
+    refine ⟨h1, h2, h3, h4, h5, ?_⟩
+    intro p' s'
+    show (List.foldl (fun g v => kidsInsert g p s v) (kidsInsert g p s x) L).kids p' s' = _
+    rw [h6]
+    by_cases hps : p' = p ∧ s' = s
+    · simp only [hps, and_self, if_true, List.foldl_cons]
+      show List.foldl setInsertNat (if p = p ∧ s = s then setInsertNat (g.kids p s) x else g.kids p s) L = _
+      simp
+    · simp only [hps, if_false]
+      show (if p' = p ∧ s' = s then setInsertNat (g.kids p s) x else g.kids p' s') = _
+      rw [if_neg hps]
+
+/-- `blkUpdate` (any list): succeeds, result well-formed, table exact if the UUIDs are distinct at
+the end, provided they are distinct in every state a step of the loop starts from -/
+theorem cache_blkUpdate_ok {g : G} (hf : ForestInv g) (hc : CacheInv g) {p : Nat} {vs : List Nat}
+    (hpn : p < g.n)
+    (hvs : ∀ v, v ∈ vs → v < g.n ∧ slotOf (g.kind v) = some .blocks ∧
+      parentKind (g.kind v) = some (g.kind p))
+    (hdf : cache_DistinctFold (cache_blkStep (irOf g p) p) g (cache_blkNew g p vs)) :
+    ∃ g', blkUpdate g p vs = .ok g' ∧ g'.n = g.n ∧ g'.kind = g.kind ∧ g'.uuid = g.uuid ∧
+      (∀ x, g'.par x = if x ∈ cache_blkNew g p vs then some p else g.par x) ∧
+      ForestInv g' ∧ (Distinct g' → CacheInv g') := by
+  have ctx : CacheBlkCtx g p (cache_blkNew g p vs) :=
+    ⟨hf, hpn, cache_blkNew_nodup g p vs, fun v hv => by
+      have := cache_mem_blkNew.1 hv
+      have h2 := hvs v this.1
+      exact ⟨h2.1, h2.2.1, h2.2.2, this.2⟩⟩
+  generalize hnew : cache_blkNew g p vs = new at ctx hdf
+  have inv0 : CacheBlkInv g p [] g :=
+    ⟨rfl, rfl, rfl, fun x => by simp, fun _ _ _ => rfl, fun p' c => by simp, fun p' => hf.nodup _ _,
+      hf.cache_parInv, rfl⟩
+  obtain ⟨gf, hfold, ⟨D, hD, invf⟩, hcf⟩ := cache_foldE_good
+    (F := cache_blkStep (irOf g p) p)
+    (fun R gk => ∃ D, new = D ++ R ∧ CacheBlkInv g p D gk)
+    (by
+      rintro gk v R ⟨D, hD, inv⟩ hd hc
+      obtain ⟨g1, h1, inv1, hc1⟩ := cache_blkStep_ok ctx hD inv hd hc
+      exact ⟨g1, h1, ⟨D ++ [v], by rw [hD]; simp, inv1⟩, hc1⟩)
+    new g ⟨[], rfl, inv0⟩ (fun _ => hc) hdf
+  rw [List.append_nil] at hD
+  subst hD
+  rw [cache_blkUpdate_eq, hnew, hfold]
+  simp only []
+  obtain ⟨k1, k2, k3, k4, k5, k6⟩ := cache_foldl_kidsInsert p .blocks new gf
+  generalize List.foldl (fun g v => kidsInsert g p Slot.blocks v) gf new = g' at k1 k2 k3 k4 k5 k6
+  have e_par : ∀ x, g'.par x = if x ∈ new then some p else g.par x := by
+    intro x; rw [k4]; exact invf.par x
+  refine ⟨g', rfl, k1.trans invf.n, k2.trans invf.kind, k3.trans invf.uuid, e_par, ?_, ?_⟩
+  · have hp' : CacheParInv g' := by
+      refine ⟨?_, ?_⟩
+      · intro c q h; rw [k4] at h; rw [k2]; exact invf.parInv.kind_ok c q h
+      · intro c q h; rw [k4] at h; rw [k1]; exact invf.parInv.alloc c q h
+    refine ⟨?_, ?_, hp'.kind_ok, hp'.alloc⟩
+    · intro c p' s'
+      rw [k6, e_par, k2, invf.kind]
+      by_cases hs' : s' = Slot.blocks
+      · subst hs'
+        by_cases hpp : p' = p
+        · subst hpp
+          simp only [and_self, if_true]
+          rw [cache_mem_foldl_setInsertNat, invf.kids_blk]
+          by_cases hcn : c ∈ new
+          · simp [hcn, (ctx.ok c hcn).2.1]
+          · simp [hcn, hf.mem_iff]
+        · simp only [hpp, false_and, if_false]
+          rw [invf.kids_blk, hf.mem_iff]
+          by_cases hcn : c ∈ new
+          · simp only [hcn, not_true_eq_false, and_false, if_true, false_iff]
+            intro h; exact hpp (Option.some.inj h.1).symm
+          · simp [hcn]
+      · simp only [hs', and_false, if_false]
+        rw [invf.kids_other p' s' hs', hf.mem_iff]
+        by_cases hcn : c ∈ new
+        · simp only [hcn, if_true, (ctx.ok c hcn).2.1]
+          constructor
+          · intro h; exact absurd (Option.some.inj h.2).symm hs'
+          · intro h; exact absurd (Option.some.inj h.2).symm hs'
+        · simp [hcn]
+    · intro p' s'
+      rw [k6]
+      by_cases hs' : s' = Slot.blocks
+      · subst hs'
+        by_cases hpp : p' = p
+        · subst hpp
+          simp only [and_self, if_true]
+          exact cache_nodup_foldl_setInsertNat _ _ (invf.kids_nodup p')
+        · simp only [hpp, false_and, if_false]; exact invf.kids_nodup p'
+      · simp only [hs', and_false, if_false]
+        rw [invf.kids_other p' s' hs']; exact hf.nodup p' s'
+  · intro hd'
+    have hdf' : Distinct gf := by
+      intro a b i ha hb hia hib hab
+      exact hd' a b i (by rw [k1]; exact ha) (by rw [k1]; exact hb)
+        (by rw [cache_irOf_congr k2 k4]; exact hia) (by rw [cache_irOf_congr k2 k4]; exact hib)
+        (by rw [k3]; exact hab)
+    have := hcf hdf'
+    intro i u x
+    rw [k5, k1, k2, k3, cache_irOf_congr k2 k4]
+    exact this i u x
+
+/-! ### the module list -/
+
+theorem cache_walk_kids_congr {k k' : Nat → Slot → List Nat}
+    (h : ∀ p' s', s' ≠ Slot.mods → k' p' s' = k p' s') (kd : Kind) (v : Nat) :
+    cache_walk k' kd v = cache_walk k kd v := by
+  have hI : cache_walkI k' = cache_walkI k := by
+    funext v; unfold cache_walkI; rw [h _ _ (by decide)]
+  have hS : cache_walkS k' = cache_walkS k := by
+    funext v; unfold cache_walkS; rw [h _ _ (by decide), hI]
+  have hM : cache_walkM k' = cache_walkM k := by
+    funext v; unfold cache_walkM
+    rw [h _ .proxies (by decide), h _ .secs (by decide), h _ .syms (by decide), hS]
+  unfold cache_walk
+  cases kd <;> simp only [hI, hS, hM]
+
+theorem cache_slot_mods {k : Kind} (h : slotOf k = some .mods) : k = .module := by
+  cases k <;> simp_all [slotOf]
+
+theorem cache_parent_of_module {k : Kind} (h : parentKind .module = some k) : k = .ir := by
+  simp [parentKind] at h; exact h.symm
+
+/-- changing the back-pointer of `w` only: the descendants of a node `v` that is not below `w` -/
+theorem cache_desc_frame_other {g g' : G} (h : CacheParInv g) {v w : Nat}
+    (hpar : ∀ x, x ≠ w → g'.par x = g.par x) (hr : cache_rank (g.kind w) ≤ cache_rank (g.kind v))
+    {y : Nat} (hd : CacheDesc g v y) : CacheDesc g' v y := by
+  induction hd with
+  | refl => exact .refl
+  | @step x a hp hd ih =>
+    have hx : x ≠ w := by
+      intro hxw
+      have h1 := cache_rank_par h hp
+      rcases cache_desc_rank h hd with h2 | h2
+      · subst hxw; subst h2; omega
+      · subst hxw; omega
+    exact .step (by rw [hpar x hx]; exact hp) ih
+
+/-- `_remove` hook of the module list; the collections enter only through the walked list -/
+theorem cache_modHookRemove_core {g : G} (hp : CacheParInv g) (hc : CacheInv g) (hd : Distinct g)
+    {i v : Nat} (hv : v < g.n) (hkv : g.kind v ≠ .ir) (hpv : g.par v = some i) (hki : g.kind i = .ir)
+    (hW : ∀ y, y ∈ cache_walk g.kids (g.kind v) v ↔ CacheDesc g v y)
+    (hnd : (cache_walk g.kids (g.kind v) v).Nodup) :
+    ∃ g1, modHookRemove g i v = .ok g1 ∧ CacheDetached g g1 v ∧ g1.kids = g.kids ∧
+      g1.par = (fun x => if x = v then none else g.par x) := by
+  have hi : irOf g v = some i := by rw [cache_irOf_par hp hpv, cache_irOf_ir hki]
+  unfold modHookRemove
+  obtain ⟨g3, hg3, h3, hc1, hc2⟩ := cache_cacheRemove_spec (gx := setPar g v none) hp hc hd rfl rfl rfl
+    rfl hv hi hW hnd
+  have e_p : g3.par = fun x => if x = v then none else g.par x := h3.par
+  have e_pv : g3.par v = none := by rw [e_p]; simp
+  have e_px : ∀ x, x ≠ v → g3.par x = g.par x := by intro x hx; rw [e_p]; simp [hx]
+  refine ⟨g3, hg3, ⟨h3.n, h3.kind, h3.uuid, e_pv, e_px, ?_, ?_⟩, h3.kids, e_p⟩
+  · apply cache_core_detach hp hc hd hv hkv h3.n h3.kind h3.uuid e_pv e_px
+    · intro i' u hh
+      rw [hi] at hh
+      exact hc1 i' u ⟨(Option.some.inj hh.1).symm, hh.2⟩
+    · intro i' u hh
+      rw [hi] at hh
+      exact hc2 i' u (fun hh' => hh ⟨by rw [hh'.1], hh'.2⟩)
+  · exact cache_distinct_detach hp hd hkv h3.n h3.kind h3.uuid e_pv e_px
+
+theorem cache_mods_facts {g : G} (hf : ForestInv g) {i v : Nat} (hm : v ∈ g.kids i .mods) :
+    g.par v = some i ∧ g.kind v = .module ∧ g.kind i = .ir ∧ v < g.n ∧ i < g.n := by
+  have h1 := (hf.mem_iff _ _ _).1 hm
+  have h2 := cache_slot_mods h1.2
+  have h3 := hf.kind_ok v i h1.1
+  rw [h2] at h3
+  exact ⟨h1.1, h2, cache_parent_of_module h3, (hf.alloc v i h1.1).1, (hf.alloc v i h1.1).2⟩
+
+theorem cache_modHookRemove_ok {g : G} (hf : ForestInv g) (hc : CacheInv g) (hd : Distinct g)
+    {i v : Nat} (hm : v ∈ g.kids i .mods) :
+    ∃ g1, modHookRemove g i v = .ok g1 ∧ CacheDetached g g1 v ∧ g1.kids = g.kids ∧
+      g1.par = (fun x => if x = v then none else g.par x) := by
+  obtain ⟨h1, h2, h3, h4, _⟩ := cache_mods_facts hf hm
+  have hkv : g.kind v ≠ .ir := by rw [h2]; decide
+  exact cache_modHookRemove_core hf.cache_parInv hc hd h4 hkv h1 h3
+    (fun y => cache_mem_walk_iff hf hkv) (cache_nodup_walk hf v)
+
+theorem cache_modListRemove_ok {g : G} (hf : ForestInv g) (hc : CacheInv g) (hd : Distinct g)
+    {i v : Nat} (hm : v ∈ g.kids i .mods) :
+    ∃ g', modListRemove g i v = .ok g' ∧ CacheDetached g g' v ∧ ForestInv g' := by
+  obtain ⟨g1, h1, hdet, hk, hpar⟩ := cache_modHookRemove_ok hf hc hd hm
+  unfold modListRemove
+  simp only [hm, if_true, h1]
+  refine ⟨_, rfl, ⟨hdet.n, hdet.kind, hdet.uuid, hdet.parv, hdet.par, hdet.cacheInv, hdet.distinct⟩, ?_⟩
+  apply cache_forest_detach hf hm (g' := kidsSet g1 i .mods ((g1.kids i .mods).erase v)) hdet.n hdet.kind hpar
+  show (fun p' s' => if p' = i ∧ s' = Slot.mods then (g1.kids i .mods).erase v else g1.kids p' s') = _
+  rw [hk]
+
+theorem cache_eraseIdx_eq_erase : ∀ (l : List Nat) (idx v : Nat), l.Nodup → l[idx]? = some v →
+    l.eraseIdx idx = l.erase v
+  | [], idx, v, _, h => by simp at h
+  | a :: l, 0, v, _, h => by
+    simp at h; subst h; simp
+  | a :: l, idx + 1, v, hnd, h => by
+    simp only [List.getElem?_cons_succ] at h
+    rw [List.nodup_cons] at hnd
+    have hv : v ∈ l := List.mem_of_getElem? h
+    have hne : a ≠ v := by intro e; subst e; exact hnd.1 hv
+    rw [List.eraseIdx_cons_succ, List.erase_cons_tail (by simpa using hne),
+      cache_eraseIdx_eq_erase l idx v hnd.2 h]
+
+theorem cache_modDelItem_ok {g : G} (hf : ForestInv g) (hc : CacheInv g) (hd : Distinct g)
+    {i : Nat} {k : Int} :
+    (∃ g' v, modDelItem g i k = .ok g' ∧ v ∈ g.kids i .mods ∧ CacheDetached g g' v ∧ ForestInv g' ∧
+      (∀ p' s', g'.kids p' s' = if p' = i ∧ s' = Slot.mods then (g.kids i .mods).erase v else g.kids p' s')) ∨
+    modDelItem g i k = .error .indexError := by
+  unfold modDelItem
+  cases hidx : pyIndex (g.kids i .mods).length k with
+  | none => exact .inr rfl
+  | some idx =>
+    simp only []
+    cases hv : (g.kids i .mods)[idx]? with
+    | none => exact .inr rfl
+    | some v =>
+      left
+      simp only []
+      have hm : v ∈ g.kids i .mods := List.mem_of_getElem? hv
+      obtain ⟨g1, h1, hdet, hk, hpar⟩ := cache_modHookRemove_ok hf hc hd hm
+      rw [h1]
+      simp only []
+      have hkids : (kidsSet g1 i .mods ((g1.kids i .mods).eraseIdx idx)).kids =
+          fun p' s' => if p' = i ∧ s' = Slot.mods then (g.kids i .mods).erase v else g.kids p' s' := by
+        show (fun p' s' => if p' = i ∧ s' = Slot.mods then (g1.kids i .mods).eraseIdx idx else g1.kids p' s') = _
+        rw [hk, cache_eraseIdx_eq_erase _ idx v (hf.nodup _ _) hv]
+      refine ⟨_, v, rfl, hm,
+        ⟨hdet.n, hdet.kind, hdet.uuid, hdet.parv, hdet.par, hdet.cacheInv, hdet.distinct⟩, ?_, ?_⟩
+      · exact cache_forest_detach hf hm (g' := kidsSet g1 i .mods ((g1.kids i .mods).eraseIdx idx))
+          hdet.n hdet.kind hpar hkids
+      · intro p' s'; rw [hkids]
+
+theorem cache_mem_pyInsert {l : List Nat} {k : Int} {v c : Nat} : c ∈ pyInsert l k v ↔ c = v ∨ c ∈ l := by
+  unfold pyInsert
+  simp only []
+  generalize (if k < 0 then if k + (l.length : Int) < 0 then (0 : Int) else k + l.length
+    else if k > l.length then (l.length : Int) else k).toNat = m
+  rw [List.mem_append, List.mem_cons]
+  conv => rhs; rw [← List.take_append_drop m l, List.mem_append]
+  constructor
+  · rintro (h | h | h)
+    · exact .inr (.inl h)
+    · exact .inl h
+    · exact .inr (.inr h)
+  · rintro (h | h | h)
+    · exact .inr (.inl h)
+    · exact .inl h
+    · exact .inr (.inr h)
+
+theorem cache_nodup_pyInsert {l : List Nat} {k : Int} {v : Nat} (hl : l.Nodup) (hv : v ∉ l) :
+    (pyInsert l k v).Nodup := by
+  unfold pyInsert
+  simp only []
+  generalize (if k < 0 then if k + (l.length : Int) < 0 then (0 : Int) else k + l.length
+    else if k > l.length then (l.length : Int) else k).toNat = m
+  rw [← List.take_append_drop m l, List.nodup_append] at hl
+  have hvt : v ∉ l.take m := fun h => hv (List.mem_of_mem_take h)
+  have hvd : v ∉ l.drop m := fun h => hv (List.mem_of_mem_drop h)
+  rw [List.nodup_append]
+  refine ⟨hl.1, List.nodup_cons.2 ⟨hvd, hl.2.1⟩, ?_⟩
+  intro a ha b hb
+  rcases List.mem_cons.1 hb with h | h
+  · subst h; intro e; subst e; exact hvt ha
+  · exact hl.2.2 a ha b h
+
+theorem cache_cacheInv_congr {g g' : G} (hn : g'.n = g.n) (hk : g'.kind = g.kind) (hu : g'.uuid = g.uuid)
+    (hp : g'.par = g.par) (hc : g'.cache = g.cache) (h : CacheInv g) : CacheInv g' := by
+  intro i u x
+  rw [hn, hk, hu, hc, cache_irOf_congr hk hp]
+  exact h i u x
+
+theorem cache_distinct_congr {g g' : G} (hn : g'.n = g.n) (hk : g'.kind = g.kind) (hu : g'.uuid = g.uuid)
+    (hp : g'.par = g.par) (h : Distinct g) : Distinct g' := by
+  intro a b i ha hb hia hib hab
+  rw [hn] at ha hb
+  rw [cache_irOf_congr hk hp] at hia hib
+  rw [hu] at hab
+  exact h a b i ha hb hia hib hab
+
+/-- `_add` hook from a state where the module `v` is detached; collections only through the walk -/
+theorem cache_modHookAttach_core {gm : G} (hp : CacheParInv gm) (hc : CacheInv gm) {i v : Nat}
+    (hv : v < gm.n) (hi : i < gm.n) (hkv : gm.kind v = .module) (hki : gm.kind i = .ir)
+    (hpv : gm.par v = none)
+    (hW : ∀ y, y ∈ cache_walk gm.kids (gm.kind v) v ↔ CacheDesc gm v y) :
+    CacheAttached gm (cacheAdd (setPar gm v (some i)) i v) v i ∧
+    (cacheAdd (setPar gm v (some i)) i v).kids = gm.kids ∧
+    (cacheAdd (setPar gm v (some i)) i v).par = (fun x => if x = v then some i else gm.par x) ∧
+    (Distinct (cacheAdd (setPar gm v (some i)) i v) → CacheInv (cacheAdd (setPar gm v (some i)) i v)) := by
+  have h4 := cache_cacheAdd_only (setPar gm v (some i)) i v
+  have e_p : (cacheAdd (setPar gm v (some i)) i v).par = fun x => if x = v then some i else gm.par x :=
+    h4.par
+  have e_pv : (cacheAdd (setPar gm v (some i)) i v).par v = some i := by rw [e_p]; simp
+  have e_px : ∀ x, x ≠ v → (cacheAdd (setPar gm v (some i)) i v).par x = gm.par x := by
+    intro x hx; rw [e_p]; simp [hx]
+  have hkp : parentKind (gm.kind v) = some (gm.kind i) := by rw [hkv, hki]; rfl
+  refine ⟨⟨h4.n, h4.kind, h4.uuid, e_pv, e_px⟩, h4.kids, e_p, ?_⟩
+  intro hd'
+  refine cache_attach_ok (gx := setPar gm v (some i)) hp hc hv hi hkp hpv hW rfl rfl rfl rfl
+    h4.n h4.kind h4.uuid e_pv e_px ?_ hd'
+  rw [cache_irOf_ir hki]
+
+theorem cache_modInsert_ok {g : G} (hf : ForestInv g) (hc : CacheInv g) (hd : Distinct g)
+    {i v : Nat} {k : Int} (hv : v < g.n) (hi : i < g.n) (hkv : g.kind v = .module) (hki : g.kind i = .ir) :
+    ∃ g', modInsert g i k v = .ok g' ∧ CacheAttached g g' v i ∧ ForestInv g' ∧
+      (Distinct g' → CacheInv g') := by
+  have tail : ∀ gm, CacheDetached g gm v → ForestInv gm →
+      ∃ g', (Except.ok (kidsSet (cacheAdd (setPar gm v (some i)) i v) i .mods
+          (pyInsert ((cacheAdd (setPar gm v (some i)) i v).kids i .mods) k v)) : Except Exc G) = .ok g' ∧
+        CacheAttached g g' v i ∧ ForestInv g' ∧ (Distinct g' → CacheInv g') := by
+    intro gm hdet hfm
+    have hkvm : gm.kind v = .module := by rw [hdet.kind]; exact hkv
+    have hkim : gm.kind i = .ir := by rw [hdet.kind]; exact hki
+    have hkvne : gm.kind v ≠ .ir := by rw [hkvm]; decide
+    obtain ⟨hA, hk, hpar, hcI⟩ := cache_modHookAttach_core hfm.cache_parInv hdet.cacheInv
+      (i := i) (v := v) (by rw [hdet.n]; exact hv) (by rw [hdet.n]; exact hi) hkvm hkim hdet.parv
+      (fun y => cache_mem_walk_iff hfm hkvne)
+    rw [hk]
+    generalize cacheAdd (setPar gm v (some i)) i v = g2 at hA hk hpar hcI
+    have hvnot : v ∉ gm.kids i .mods := by
+      intro h; have := ((hfm.mem_iff _ _ _).1 h).1; rw [hdet.parv] at this; cases this
+    refine ⟨_, rfl, CacheAttached.of_detached hdet ⟨hA.n, hA.kind, hA.uuid, hA.parv, hA.par⟩, ?_, ?_⟩
+    · apply cache_forest_attach hfm (p := i) (v := v) (s := .mods) (by rw [hdet.n]; exact hv)
+        (by rw [hdet.n]; exact hi) (by rw [hkvm]; rfl) (by rw [hkvm, hkim]; rfl) hdet.parv
+        (g' := kidsSet g2 i .mods (pyInsert (gm.kids i .mods) k v)) hA.n hA.kind hpar
+      · intro p' s' hps
+        show (if p' = i ∧ s' = Slot.mods then _ else g2.kids p' s') = _
+        rw [if_neg hps, hk]
+      · intro c
+        show c ∈ (if i = i ∧ Slot.mods = Slot.mods then pyInsert (gm.kids i .mods) k v else g2.kids i .mods) ↔ _
+        rw [if_pos ⟨rfl, rfl⟩]; exact cache_mem_pyInsert
+      · show (if i = i ∧ Slot.mods = Slot.mods then pyInsert (gm.kids i .mods) k v else g2.kids i .mods).Nodup
+        rw [if_pos ⟨rfl, rfl⟩]; exact cache_nodup_pyInsert (hfm.nodup _ _) hvnot
+    · intro hd'
+      have hd2 : Distinct g2 := cache_distinct_congr (g := kidsSet g2 i .mods (pyInsert (gm.kids i .mods) k v))
+        rfl rfl rfl rfl hd'
+      exact cache_cacheInv_congr (g := g2) rfl rfl rfl rfl rfl (hcI hd2)
+  unfold modInsert modHookAdd
+  cases hq : g.par v with
+  | none => exact tail g (CacheDetached.refl' hc hd hq) hf
+  | some j =>
+    have hm : v ∈ g.kids j .mods := (hf.mem_iff _ _ _).2 ⟨hq, by rw [hkv]; rfl⟩
+    obtain ⟨g1, h1, hdet, hf1⟩ := cache_modListRemove_ok hf hc hd hm
+    simp only [h1]
+    exact tail g1 hdet hf1
+
+theorem cache_modAppend_ok {g : G} (hf : ForestInv g) (hc : CacheInv g) (hd : Distinct g)
+    {i v : Nat} (hv : v < g.n) (hi : i < g.n) (hkv : g.kind v = .module) (hki : g.kind i = .ir) :
+    ∃ g', modAppend g i v = .ok g' ∧ CacheAttached g g' v i ∧ ForestInv g' ∧
+      (Distinct g' → CacheInv g') := cache_modInsert_ok hf hc hd hv hi hkv hki
+
+theorem cache_desc_iff_other {g g' : G} (hp : CacheParInv g) (hp' : CacheParInv g') (hk : g'.kind = g.kind)
+    {v w : Nat} (hpar : ∀ x, x ≠ w → g'.par x = g.par x)
+    (hr : cache_rank (g.kind w) ≤ cache_rank (g.kind v)) (y : Nat) :
+    CacheDesc g v y ↔ CacheDesc g' v y :=
+  ⟨cache_desc_frame_other hp hpar hr,
+   cache_desc_frame_other hp' (fun x hx => (hpar x hx).symm) (by rw [hk]; exact hr)⟩
+
+theorem cache_modHookRemove_shape {g g' : G} {i v : Nat} (h : modHookRemove g i v = .ok g') :
+    CacheLeft g g' v := by
+  unfold modHookRemove at h
+  have := cache_cacheRemove_only h
+  refine ⟨this.n, this.kind, this.uuid, ?_⟩
+  intro x hx
+  rw [this.par]; show (if x = v then none else g.par x) = _; rw [if_neg hx]
+
+theorem cache_modListRemove_shape {g g' : G} {i v : Nat} (h : modListRemove g i v = .ok g') :
+    CacheLeft g g' v := by
+  unfold modListRemove at h
+  split at h
+  · cases h1 : modHookRemove g i v with
+    | error e => rw [h1] at h; cases h
+    | ok g1 =>
+      rw [h1] at h; cases h
+      have := cache_modHookRemove_shape h1
+      exact ⟨this.n, this.kind, this.uuid, this.par⟩
+  · cases h
+
+theorem cache_modInsert_shape {g g' : G} {i v : Nat} {k : Int} (h : modInsert g i k v = .ok g') :
+    CacheAttached g g' v i := by
+  have tail : ∀ gm, CacheLeft g gm v →
+      (Except.ok (kidsSet (cacheAdd (setPar gm v (some i)) i v) i .mods
+          (pyInsert ((cacheAdd (setPar gm v (some i)) i v).kids i .mods) k v)) : Except Exc G) = .ok g' →
+      CacheAttached g g' v i := by
+    intro gm hl h
+    cases h
+    have h4 := cache_cacheAdd_only (setPar gm v (some i)) i v
+    have e_p : (cacheAdd (setPar gm v (some i)) i v).par = fun x => if x = v then some i else gm.par x :=
+      h4.par
+    refine ⟨h4.n.trans hl.n, h4.kind.trans hl.kind, h4.uuid.trans hl.uuid, ?_, ?_⟩
+    · show (cacheAdd (setPar gm v (some i)) i v).par v = _; rw [e_p]; simp
+    · intro x hx
+      show (cacheAdd (setPar gm v (some i)) i v).par x = _
+      rw [e_p]; simp only [hx, if_false]; exact hl.par x hx
+  unfold modInsert modHookAdd at h
+  cases hq : g.par v with
+  | none => rw [hq] at h; exact tail g (CacheLeft.rfl' g v) h
+  | some j =>
+    rw [hq] at h
+    simp only [] at h
+    cases h1 : modListRemove g j v with
+    | error e => rw [h1] at h; cases h
+    | ok g1 => rw [h1] at h; exact tail g1 (cache_modListRemove_shape h1) h
+
+theorem cache_modAppend_shape {g g' : G} {i v : Nat} (h : modAppend g i v = .ok g') :
+    CacheAttached g g' v i := cache_modInsert_shape h
+
+/-- `self[k] = v` on the module list: no `cacheKeyError`, table exact -/
+theorem cache_modSetItem_good {g : G} (hf : ForestInv g) (hc : CacheInv g) (hd : Distinct g)
+    {i v : Nat} {k : Int} (hv : v < g.n) (hi : i < g.n) (hkv : g.kind v = .module) (hki : g.kind i = .ir) :
+    (∃ g', modSetItem g i k v = .ok g' ∧ (Distinct g' → CacheInv g')) ∨
+    (∃ e, modSetItem g i k v = .error e ∧ e ≠ .cacheKeyError) := by
+  have hp := hf.cache_parInv
+  unfold modSetItem
+  cases hidx : pyIndex (g.kids i .mods).length k with
+  | none => exact .inr ⟨_, rfl, by decide⟩
+  | some idx =>
+    simp only []
+    cases hold : (g.kids i .mods)[idx]? with
+    | none => exact .inr ⟨_, rfl, by decide⟩
+    | some old =>
+      simp only []
+      by_cases hout : v ∈ g.kids i .mods ∧ v ≠ old
+      · rw [if_pos hout]; exact .inr ⟨_, rfl, by decide⟩
+      · rw [if_neg hout]
+        left
+        have hmo : old ∈ g.kids i .mods := List.mem_of_getElem? hold
+        obtain ⟨ho1, ho2, _, ho4, _⟩ := cache_mods_facts hf hmo
+        obtain ⟨g1, h1, hdet, hk1, hpar1⟩ := cache_modHookRemove_ok hf hc hd hmo
+        rw [h1]
+        simp only []
+        have hp1 : CacheParInv g1 := cache_parInv_detach hp hdet.n hdet.kind hdet.parv hdet.par
+        have hkvne : g.kind v ≠ .ir := by rw [hkv]; decide
+        have hrank : cache_rank (g.kind old) ≤ cache_rank (g.kind v) := by rw [ho2, hkv]; exact Nat.le_refl _
+        have hW1 : ∀ y, y ∈ cache_walk g1.kids (g1.kind v) v ↔ CacheDesc g1 v y := by
+          intro y
+          rw [hk1, hdet.kind, cache_mem_walk_iff hf hkvne]
+          exact cache_desc_iff_other hp hp1 hdet.kind hdet.par hrank y
+        -- the final steps from a state `gm` in which `v` is detached
+        have tail : ∀ gm, CacheParInv gm → CacheInv gm → gm.n = g.n → gm.kind = g.kind → gm.par v = none →
+            (∀ y, y ∈ cache_walk gm.kids (gm.kind v) v ↔ CacheDesc gm v y) →
+            ∃ g', (Except.ok (kidsSet (cacheAdd (setPar gm v (some i)) i v) i .mods
+              (((cacheAdd (setPar gm v (some i)) i v).kids i .mods).set idx v)) : Except Exc G) = .ok g' ∧
+              (Distinct g' → CacheInv g') := by
+          intro gm hpm hcm hnm hkm hpvm hWm
+          obtain ⟨_, _, _, hcI⟩ := cache_modHookAttach_core hpm hcm (i := i) (v := v)
+            (by rw [hnm]; exact hv) (by rw [hnm]; exact hi) (by rw [hkm]; exact hkv)
+            (by rw [hkm]; exact hki) hpvm hWm
+          refine ⟨_, rfl, ?_⟩
+          intro hd'
+          exact cache_cacheInv_congr (g := cacheAdd (setPar gm v (some i)) i v) rfl rfl rfl rfl rfl
+            (hcI (cache_distinct_congr (g := kidsSet (cacheAdd (setPar gm v (some i)) i v) i .mods
+              (((cacheAdd (setPar gm v (some i)) i v).kids i .mods).set idx v)) rfl rfl rfl rfl hd'))
+        unfold modHookAdd
+        cases hq : g1.par v with
+        | none =>
+          simp only []
+          exact tail g1 hp1 hdet.cacheInv hdet.n hdet.kind hq hW1
+        | some j =>
+          simp only []
+          have hvo : v ≠ old := by intro e; rw [e, hdet.parv] at hq; cases hq
+          have hgq : g.par v = some j := by rw [← hdet.par v hvo]; exact hq
+          have hmj : v ∈ g.kids j .mods := (hf.mem_iff _ _ _).2 ⟨hgq, by rw [hkv]; rfl⟩
+          obtain ⟨_, _, hkj, _, _⟩ := cache_mods_facts hf hmj
+          have hnd1 : (cache_walk g1.kids (g1.kind v) v).Nodup := by
+            rw [hk1, hdet.kind]; exact cache_nodup_walk hf v
+          obtain ⟨gm0, hm0, hdet0, hk0, hpar0⟩ := cache_modHookRemove_core hp1 hdet.cacheInv hdet.distinct
+            (i := j) (v := v) (by rw [hdet.n]; exact hv) (by rw [hdet.kind]; exact hkvne) hq
+            (by rw [hdet.kind]; exact hkj) hW1 hnd1
+          unfold modListRemove
+          rw [if_pos (by rw [hk1]; exact hmj), hm0]
+          simp only []
+          have hpm0 : CacheParInv (kidsSet gm0 j .mods ((gm0.kids j .mods).erase v)) :=
+            cache_parInv_detach (g' := kidsSet gm0 j .mods ((gm0.kids j .mods).erase v)) hp1 hdet0.n
+              hdet0.kind hdet0.parv hdet0.par
+          apply tail (kidsSet gm0 j .mods ((gm0.kids j .mods).erase v)) hpm0
+            (cache_cacheInv_congr (g := gm0) rfl rfl rfl rfl rfl hdet0.cacheInv)
+            (hdet0.n.trans hdet.n) (hdet0.kind.trans hdet.kind) hdet0.parv
+          intro y
+          have hcongr : cache_walk (kidsSet gm0 j .mods ((gm0.kids j .mods).erase v)).kids
+              ((kidsSet gm0 j .mods ((gm0.kids j .mods).erase v)).kind v) v =
+              cache_walk g1.kids (g1.kind v) v := by
+            rw [← hk0]
+            show cache_walk _ (gm0.kind v) v = _
+            rw [hdet0.kind]
+            apply cache_walk_kids_congr
+            intro p' s' hs'
+            show (if p' = j ∧ s' = Slot.mods then _ else gm0.kids p' s') = _
+            rw [if_neg (fun h => hs' h.2)]
+          rw [hcongr, hW1]
+          exact cache_desc_iff_other (g' := kidsSet gm0 j .mods ((gm0.kids j .mods).erase v)) hp1 hpm0
+            hdet0.kind hdet0.par (Nat.le_refl _) y
+
+/-! ### allocation, `mkIR`, symbol attributes -/
+
+theorem cache_alloc_forest {g : G} (hf : ForestInv g) (k : Kind) (u : Nat) : ForestInv (alloc g k u).1 := by
+  refine ⟨?_, ?_, ?_, ?_⟩
+  · intro c p s
+    show c ∈ (if p = g.n then [] else g.kids p s) ↔
+      (if c = g.n then none else g.par c) = some p ∧ slotOf (if c = g.n then k else g.kind c) = some s
+    by_cases hp : p = g.n
+    · subst hp
+      simp only [if_true, List.not_mem_nil, false_iff]
+      rintro ⟨h, _⟩
+      by_cases hc : c = g.n
+      · rw [if_pos hc] at h; cases h
+      · rw [if_neg hc] at h; have := (hf.alloc c _ h).2; omega
+    · rw [if_neg hp, hf.mem_iff]
+      by_cases hc : c = g.n
+      · subst hc
+        simp only [if_true]
+        constructor
+        · intro h; have := (hf.alloc _ _ h.1).1; omega
+        · intro h; cases h.1
+      · simp [hc]
+  · intro p s
+    show (if p = g.n then [] else g.kids p s).Nodup
+    split
+    · exact List.nodup_nil
+    · exact hf.nodup p s
+  · intro c p h
+    have h' : (if c = g.n then none else g.par c) = some p := h
+    by_cases hc : c = g.n
+    · rw [if_pos hc] at h'; cases h'
+    · rw [if_neg hc] at h'
+      have hpn := (hf.alloc c p h').2
+      show parentKind (if c = g.n then k else g.kind c) = some (if p = g.n then k else g.kind p)
+      rw [if_neg hc, if_neg (by omega)]
+      exact hf.kind_ok c p h'
+  · intro c p h
+    have h' : (if c = g.n then none else g.par c) = some p := h
+    by_cases hc : c = g.n
+    · rw [if_pos hc] at h'; cases h'
+    · rw [if_neg hc] at h'
+      have := hf.alloc c p h'
+      show c < g.n + 1 ∧ p < g.n + 1
+      omega
+
+/-- `irOf` of the old nodes is untouched by an allocation -/
+theorem cache_alloc_irOf_old {g : G} (hf : ForestInv g) (k : Kind) (u : Nat) :
+    ∀ (r x : Nat), cache_rank (g.kind x) ≤ r → x < g.n → irOf (alloc g k u).1 x = irOf g x := by
+  have hp := hf.cache_parInv
+  have hp1 := (cache_alloc_forest hf k u).cache_parInv
+  have hk : ∀ x, x < g.n → (alloc g k u).1.kind x = g.kind x := by
+    intro x hx; show (if x = g.n then k else g.kind x) = _; rw [if_neg (by omega)]
+  have hpar : ∀ x, x < g.n → (alloc g k u).1.par x = g.par x := by
+    intro x hx; show (if x = g.n then none else g.par x) = _; rw [if_neg (by omega)]
+  intro r
+  induction r with
+  | zero =>
+    intro x hr hx
+    have : g.kind x = .ir := by
+      cases hkx : g.kind x <;> rw [hkx] at hr <;> simp [cache_rank] at hr
+    rw [cache_irOf_ir this, cache_irOf_ir (by rw [hk x hx]; exact this)]
+  | succ r ih =>
+    intro x hr hx
+    cases hpx : g.par x with
+    | none =>
+      rw [cache_irOf_root hpx, cache_irOf_root (by rw [hpar x hx]; exact hpx), hk x hx]
+    | some a =>
+      have ha := (hp.alloc x a hpx).2
+      have hrk := cache_rank_par hp hpx
+      rw [cache_irOf_par hp hpx, cache_irOf_par hp1 (by rw [hpar x hx]; exact hpx)]
+      exact ih a (by omega) ha
+
+theorem cache_alloc_irOf_old' {g : G} (hf : ForestInv g) (k : Kind) (u : Nat) {x : Nat} (hx : x < g.n) :
+    irOf (alloc g k u).1 x = irOf g x := cache_alloc_irOf_old hf k u _ x (Nat.le_refl _) hx
+
+theorem cache_alloc_irOf_new (g : G) (k : Kind) (u : Nat) :
+    irOf (alloc g k u).1 g.n = if k = .ir then some g.n else none := by
+  have hpn : (alloc g k u).1.par g.n = none := by
+    show (if g.n = g.n then none else g.par g.n) = none; simp
+  rw [cache_irOf_root hpn]
+  show (if (if g.n = g.n then k else g.kind g.n) = Kind.ir then some g.n else none) = _
+  simp
+
+theorem cache_alloc_distinct {g : G} (hf : ForestInv g) (hd : Distinct g) (k : Kind) (u : Nat) :
+    Distinct (alloc g k u).1 := by
+  have hp := hf.cache_parInv
+  intro a b i ha hb hia hib hab
+  have ha' : a < g.n + 1 := ha
+  have hb' : b < g.n + 1 := hb
+  have hu : ∀ x, x < g.n → (alloc g k u).1.uuid x = g.uuid x := by
+    intro x hx; show (if x = g.n then u else g.uuid x) = _; rw [if_neg (by omega)]
+  by_cases han : a = g.n
+  · by_cases hbn : b = g.n
+    · rw [han, hbn]
+    · exfalso
+      have hb'' : b < g.n := by omega
+      rw [han, cache_alloc_irOf_new] at hia
+      split at hia
+      · cases hia
+        rw [cache_alloc_irOf_old' hf k u hb''] at hib
+        have := (cache_irOf_some' hp hb'' hib).1; omega
+      · cases hia
+  · have ha'' : a < g.n := by omega
+    by_cases hbn : b = g.n
+    · exfalso
+      rw [hbn, cache_alloc_irOf_new] at hib
+      split at hib
+      · cases hib
+        rw [cache_alloc_irOf_old' hf k u ha''] at hia
+        have := (cache_irOf_some' hp ha'' hia).1; omega
+      · cases hib
+    · have hb'' : b < g.n := by omega
+      rw [cache_alloc_irOf_old' hf k u ha''] at hia
+      rw [cache_alloc_irOf_old' hf k u hb''] at hib
+      rw [hu a ha'', hu b hb''] at hab
+      exact hd a b i ha'' hb'' hia hib hab
+
+theorem cache_alloc_cacheInv {g : G} (hf : ForestInv g) (hc : CacheInv g) {k : Kind} (hk : k ≠ .ir)
+    (u : Nat) : CacheInv (alloc g k u).1 := by
+  have hp := hf.cache_parInv
+  intro i u' x
+  show g.cache i u' = some x ↔ (i < g.n + 1 ∧ (if i = g.n then k else g.kind i) = Kind.ir ∧ x < g.n + 1 ∧
+    irOf (alloc g k u).1 x = some i ∧ (if x = g.n then u else g.uuid x) = u')
+  constructor
+  · intro h
+    obtain ⟨h1, h2, h3, h4, h5⟩ := (hc i u' x).1 h
+    refine ⟨by omega, by rw [if_neg (by omega)]; exact h2, by omega, ?_, by rw [if_neg (by omega)]; exact h5⟩
+    rw [cache_alloc_irOf_old' hf k u h3]; exact h4
+  · rintro ⟨h1, h2, h3, h4, h5⟩
+    by_cases hxn : x = g.n
+    · rw [hxn, cache_alloc_irOf_new, if_neg hk] at h4; cases h4
+    · have hx : x < g.n := by omega
+      rw [cache_alloc_irOf_old' hf k u hx] at h4
+      have hi := cache_irOf_some' hp hx h4
+      rw [if_neg hxn] at h5
+      exact (hc i u' x).2 ⟨hi.1, hi.2, hx, h4, h5⟩
+
+theorem cache_mkIR_cacheInv {g : G} (hf : ForestInv g) (hc : CacheInv g) (u : Nat) : CacheInv (mkIR g u) := by
+  have hp := hf.cache_parInv
+  have hir : ∀ x, irOf (mkIR g u) x = irOf (alloc g .ir u).1 x := fun x => cache_irOf_congr rfl rfl x
+  intro i u' x
+  rw [hir]
+  show (if i = g.n ∧ u' = u then some g.n else (if i = g.n then none else g.cache i u')) = some x ↔
+    (i < g.n + 1 ∧ (if i = g.n then Kind.ir else g.kind i) = Kind.ir ∧ x < g.n + 1 ∧
+    irOf (alloc g .ir u).1 x = some i ∧ (if x = g.n then u else g.uuid x) = u')
+  by_cases hin : i = g.n
+  · subst hin
+    simp only [true_and, if_true]
+    constructor
+    · intro h
+      split at h
+      · cases h
+        rename_i hu
+        refine ⟨by omega, by omega, ?_, by simp [hu]⟩
+        rw [cache_alloc_irOf_new]; simp
+      · cases h
+    · rintro ⟨_, h3, h4, h5⟩
+      by_cases hxn : x = g.n
+      · subst hxn; simp at h5; simp [h5]
+      · exfalso
+        have hx : x < g.n := by omega
+        rw [cache_alloc_irOf_old' hf .ir u hx] at h4
+        have := (cache_irOf_some' hp hx h4).1; omega
+  · simp only [hin, false_and, if_false]
+    constructor
+    · intro h
+      obtain ⟨h1, h2, h3, h4, h5⟩ := (hc i u' x).1 h
+      refine ⟨by omega, h2, by omega, ?_, by rw [if_neg (by omega)]; exact h5⟩
+      rw [cache_alloc_irOf_old' hf .ir u h3]; exact h4
+    · rintro ⟨h1, h2, h3, h4, h5⟩
+      by_cases hxn : x = g.n
+      · rw [hxn, cache_alloc_irOf_new] at h4; simp at h4; exact absurd h4.symm hin
+      · have hx : x < g.n := by omega
+        rw [cache_alloc_irOf_old' hf .ir u hx] at h4
+        have hi := cache_irOf_some' hp hx h4
+        rw [if_neg hxn] at h5
+        exact (hc i u' x).2 ⟨hi.1, hi.2, hx, h4, h5⟩
+
+theorem cache_setName_same (g : G) (v nm : Nat) : CacheSame g (setName g v nm) := by
+  unfold setName
+  cases hq : g.par v with
+  | none =>
+    simp only []
+    split
+    · rename_i m _
+      have := cache_symIndexAdd_same { g with name := fun x => if x = v then nm else g.name x } m v
+      exact ⟨this.n, this.kind, this.uuid, this.par, this.kids, this.cache⟩
+    · exact ⟨rfl, rfl, rfl, rfl, rfl, rfl⟩
+  | some m0 =>
+    simp only []
+    have h1 := cache_symIndexDiscard_same g m0 v
+    split
+    · rename_i m _
+      have := cache_symIndexAdd_same { symIndexDiscard g m0 v with
+        name := fun x => if x = v then nm else (symIndexDiscard g m0 v).name x } m v
+      exact ⟨this.n.trans h1.n, this.kind.trans h1.kind, this.uuid.trans h1.uuid, this.par.trans h1.par,
+        this.kids.trans h1.kids, this.cache.trans h1.cache⟩
+    · exact ⟨h1.n, h1.kind, h1.uuid, h1.par, h1.kids, h1.cache⟩
+
+theorem cache_setPayload_same (g : G) (v : Nat) (pl : Payload) : CacheSame g (setPayload g v pl) := by
+  unfold setPayload
+  cases hq : g.par v with
+  | none =>
+    simp only []
+    split
+    · rename_i m _
+      have := cache_symIndexAdd_same { g with payload := fun x => if x = v then pl else g.payload x } m v
+      exact ⟨this.n, this.kind, this.uuid, this.par, this.kids, this.cache⟩
+    · exact ⟨rfl, rfl, rfl, rfl, rfl, rfl⟩
+  | some m0 =>
+    simp only []
+    have h1 := cache_symIndexDiscard_same g m0 v
+    split
+    · rename_i m _
+      have := cache_symIndexAdd_same { symIndexDiscard g m0 v with
+        payload := fun x => if x = v then pl else (symIndexDiscard g m0 v).payload x } m v
+      exact ⟨this.n.trans h1.n, this.kind.trans h1.kind, this.uuid.trans h1.uuid, this.par.trans h1.par,
+        this.kids.trans h1.kids, this.cache.trans h1.cache⟩
+    · exact ⟨h1.n, h1.kind, h1.uuid, h1.par, h1.kids, h1.cache⟩
+
+theorem CacheSame.cacheInv {g g' : G} (h : CacheSame g g') (hc : CacheInv g) : CacheInv g' :=
+  cache_cacheInv_congr h.n h.kind h.uuid h.par h.cache hc
+
+theorem CacheSame.distinct {g g' : G} (h : CacheSame g g') (hc : Distinct g) : Distinct g' :=
+  cache_distinct_congr h.n h.kind h.uuid h.par hc
+
+theorem CacheSame.forest {g g' : G} (h : CacheSame g g') (hf : ForestInv g) : ForestInv g' := by
+  refine ⟨?_, ?_, ?_, ?_⟩
+  · intro c p s; rw [h.kids, h.par, h.kind]; exact hf.mem_iff c p s
+  · intro p s; rw [h.kids]; exact hf.nodup p s
+  · intro c p; rw [h.par, h.kind]; exact hf.kind_ok c p
+  · intro c p; rw [h.par, h.n]; exact hf.alloc c p
+
+/-! ### attaching below a node that belongs to no IR -/
+
+/-- some back-pointers are redirected to a node `t` that has no IR: no node gains an IR -/
+theorem cache_irOf_to_detached {g g' : G} (hp : CacheParInv g) (hp' : CacheParInv g')
+    (hk : g'.kind = g.kind) {t : Nat} (hpar : ∀ y, g'.par y = g.par y ∨ g'.par y = some t)
+    (ht : irOf g' t = none) :
+    ∀ (r y j : Nat), cache_rank (g.kind y) ≤ r → irOf g' y = some j → irOf g y = some j := by
+  intro r
+  induction r with
+  | zero =>
+    intro y j hr h
+    have : g.kind y = .ir := by
+      cases hky : g.kind y <;> rw [hky] at hr <;> simp [cache_rank] at hr
+    rw [cache_irOf_ir (by rw [hk]; exact this)] at h
+    rw [cache_irOf_ir this]; exact h
+  | succ r ih =>
+    intro y j hr h
+    rcases hpar y with h1 | h1
+    · cases hpy : g.par y with
+      | none =>
+        rw [cache_irOf_root (by rw [h1]; exact hpy), hk] at h
+        rw [cache_irOf_root hpy]; exact h
+      | some a =>
+        rw [cache_irOf_par hp' (by rw [h1]; exact hpy)] at h
+        rw [cache_irOf_par hp hpy]
+        have := cache_rank_par hp hpy
+        exact ih a j (by omega) h
+    · rw [cache_irOf_par hp' h1, ht] at h; cases h
+
+theorem cache_distinct_to_detached {g g' : G} (hp : CacheParInv g) (hp' : CacheParInv g')
+    (hn : g'.n = g.n) (hk : g'.kind = g.kind) (hu : g'.uuid = g.uuid) {t : Nat}
+    (hpar : ∀ y, g'.par y = g.par y ∨ g'.par y = some t) (ht : irOf g' t = none)
+    (hd : Distinct g) : Distinct g' := by
+  intro a b i ha hb hia hib hab
+  rw [hn] at ha hb; rw [hu] at hab
+  exact hd a b i ha hb (cache_irOf_to_detached hp hp' hk hpar ht _ a i (Nat.le_refl _) hia)
+    (cache_irOf_to_detached hp hp' hk hpar ht _ b i (Nat.le_refl _) hib) hab
+
+theorem CacheAttached.par_cases {g g' : G} {v p : Nat} (h : CacheAttached g g' v p) (y : Nat) :
+    g'.par y = g.par y ∨ g'.par y = some p := by
+  by_cases hy : y = v
+  · subst hy; exact .inr h.parv
+  · exact .inl (h.par y hy)
+
+/-- singleton (or empty) folds need distinctness only at the start -/
+theorem cache_distinctFold_short {F : G → Nat → Except Exc G} {g : G} (hd : Distinct g) :
+    ∀ (L : List Nat), L.length ≤ 1 → cache_DistinctFold F g L
+  | [], _ => trivial
+  | [v], _ => ⟨hd, by cases F g v <;> trivial⟩
+  | _ :: _ :: _, h => by simp at h
+
+theorem cache_blkNew_single (g : G) (p v : Nat) : (cache_blkNew g p [v]).length ≤ 1 := by
+  unfold cache_blkNew
+  have : [v].eraseDups = [v] := by simp [List.eraseDups_cons]
+  rw [this]
+  exact List.length_filter_le _ _
+
+/-- `nodeSetAdd` (the `add` of any node set) -/
+theorem cache_nodeSetAdd_ok {g : G} (hf : ForestInv g) (hc : CacheInv g) (hd : Distinct g)
+    {p v : Nat} {s : Slot} (hv : v < g.n) (hpn : p < g.n) (hs : slotOf (g.kind v) = some s)
+    (hkp : parentKind (g.kind v) = some (g.kind p)) :
+    ∃ g', nodeSetAdd g p s v = .ok g' ∧ g'.n = g.n ∧ g'.kind = g.kind ∧ g'.uuid = g.uuid ∧
+      (∀ y, g'.par y = g.par y ∨ g'.par y = some p) ∧ ForestInv g' ∧ (Distinct g' → CacheInv g') := by
+  unfold nodeSetAdd
+  by_cases hsb : s = .blocks
+  · subst hsb
+    rw [if_pos rfl]
+    obtain ⟨g', h1, h2, h3, h4, h5, h6, h7⟩ := cache_blkUpdate_ok hf hc (p := p) (vs := [v]) hpn
+      (by intro x hx; rw [List.mem_singleton] at hx; subst hx; exact ⟨hv, hs, hkp⟩)
+      (cache_distinctFold_short hd _ (cache_blkNew_single g p v))
+    refine ⟨g', h1, h2, h3, h4, ?_, h6, h7⟩
+    intro y; rw [h5]; split
+    · exact .inr rfl
+    · exact .inl rfl
+  · rw [if_neg hsb]
+    obtain ⟨g', h1, hA, h2, h3⟩ := cache_setAdd_ok hf hc hd hv hpn hs hkp
+    exact ⟨g', h1, hA.n, hA.kind, hA.uuid, hA.par_cases, h2, h3⟩
+
+theorem cache_slotOf_some {k : Kind} (h : k ≠ .ir) : ∃ s, slotOf k = some s := by
+  cases k <;> simp_all [slotOf]
+
+theorem cache_slotOf_mods_iff {k : Kind} {s : Slot} (h : slotOf k = some s) : s = .mods ↔ k = .module := by
+  cases k <;> simp_all [slotOf] <;> (try (intro e; subst e; simp at h)) <;> (try exact h.symm)
+
+/-- the parent setter of every kind -/
+theorem cache_setParent_ok {g : G} (hf : ForestInv g) (hc : CacheInv g) (hd : Distinct g)
+    {c : Nat} {p : Option Nat} (hcn : c < g.n) (hkc : g.kind c ≠ .ir)
+    (hp : ∀ q, p = some q → q < g.n ∧ parentKind (g.kind c) = some (g.kind q)) :
+    ∃ g', setParent g c p = .ok g' ∧ g'.n = g.n ∧ g'.kind = g.kind ∧ g'.uuid = g.uuid ∧
+      ForestInv g' ∧ (Distinct g' → CacheInv g') := by
+  obtain ⟨s, hs⟩ := cache_slotOf_some hkc
+  have hsm := cache_slotOf_mods_iff hs
+  -- second half
+  have tail : ∀ g1, CacheDetached g g1 c → ForestInv g1 →
+      ∃ g', (match p with
+        | none => Except.ok g1
+        | some p' => if s = Slot.mods then modAppend g1 p' c else nodeSetAdd g1 p' s c) = .ok g' ∧
+        g'.n = g.n ∧ g'.kind = g.kind ∧ g'.uuid = g.uuid ∧ ForestInv g' ∧ (Distinct g' → CacheInv g') := by
+    intro g1 hdet hf1
+    cases p with
+    | none => exact ⟨g1, rfl, hdet.n, hdet.kind, hdet.uuid, hf1, fun _ => hdet.cacheInv⟩
+    | some p' =>
+      obtain ⟨hpn, hkp⟩ := hp p' rfl
+      simp only []
+      by_cases hm : s = Slot.mods
+      · rw [if_pos hm]
+        have hkc' := hsm.1 hm
+        have hki : g.kind p' = .ir := by
+          rw [hkc'] at hkp; exact cache_parent_of_module hkp
+        obtain ⟨g', h1, hA, h2, h3⟩ := cache_modAppend_ok hf1 hdet.cacheInv hdet.distinct (i := p') (v := c)
+          (by rw [hdet.n]; exact hcn) (by rw [hdet.n]; exact hpn) (by rw [hdet.kind]; exact hkc')
+          (by rw [hdet.kind]; exact hki)
+        exact ⟨g', h1, hA.n.trans hdet.n, hA.kind.trans hdet.kind, hA.uuid.trans hdet.uuid, h2, h3⟩
+      · rw [if_neg hm]
+        obtain ⟨g', h1, h2, h3, h4, _, h6, h7⟩ := cache_nodeSetAdd_ok hf1 hdet.cacheInv hdet.distinct
+          (p := p') (v := c) (s := s) (by rw [hdet.n]; exact hcn) (by rw [hdet.n]; exact hpn)
+          (by rw [hdet.kind]; exact hs) (by rw [hdet.kind]; exact hkp)
+        exact ⟨g', h1, h2.trans hdet.n, h3.trans hdet.kind, h4.trans hdet.uuid, h6, h7⟩
+  unfold setParent
+  rw [hs]
+  simp only []
+  cases hq : g.par c with
+  | none =>
+    simp only []
+    exact tail g (CacheDetached.refl' hc hd hq) hf
+  | some q =>
+    simp only []
+    have hmem : c ∈ g.kids q s := (hf.mem_iff _ _ _).2 ⟨hq, hs⟩
+    by_cases hm : s = Slot.mods
+    · rw [if_pos hm]
+      subst hm
+      obtain ⟨g1, h1, hdet, hf1⟩ := cache_modListRemove_ok hf hc hd hmem
+      rw [h1]
+      exact tail g1 hdet hf1
+    · rw [if_neg hm]
+      obtain ⟨g1, h1, hdet, hf1⟩ := cache_setDiscard_ok hf hc hd hcn hkc hmem
+      rw [h1]
+      exact tail g1 hdet hf1
+
 end Gtirb.Forest
